@@ -236,8 +236,14 @@ class ExprMixin:
         return self.bind(self.eval_list([e.left, e.right], st), fin)
 
     def binop(self, op, a, b, st, line):
+        # (is_inf: module-level helper below)
         a = self.unwrap_opt(a, st, 'lhs', line)
         b = self.unwrap_opt(b, st, 'rhs', line)
+        # non-finite floats: float('inf') and whatever is computed from it stays the marker "non-finite" (sign and NaN are not
+        # tracked: the marker is only compared against finite numbers, as +inf, and tested for by contracts)
+        if (is_inf(a) or is_inf(b)) and isinstance(op, (ast.Add, ast.Sub, ast.Mult, ast.Div)) and \
+                all(is_inf(x) or is_int_like(x) or is_real_like(x) for x in (a, b)):
+            return [ok(('$inf', 'inf'), st)]
         # opaque strings: concatenation is an uninterpreted (injective-agnostic) function
         if isinstance(op, ast.Add) and ((isinstance(a, Opaque) and a.kind in ('str', 'fileobj_or_name')) or (isinstance(b, Opaque) and b.kind == 'str')) \
                 and isinstance(a, (Opaque, str, FStr)) and isinstance(b, (Opaque, str, FStr)):
@@ -527,6 +533,11 @@ class ExprMixin:
             return r
         a = self.unwrap_opt(a, st, 'cmp', line)
         b = self.unwrap_opt(b, st, 'cmp', line)
+        # +infinity (float('inf') and anything computed from it, see binop) against a finite number
+        inf_a, inf_b = is_inf(a), is_inf(b)
+        if (inf_a or inf_b) and not (inf_a and inf_b) and (is_int_like(b) or is_real_like(b) or is_int_like(a) or is_real_like(a)):
+            big_left = inf_a
+            return {ast.Lt: not big_left, ast.LtE: not big_left, ast.Gt: big_left, ast.GtE: big_left}[type(op)]
         if not ((is_int_like(a) or is_real_like(a)) and (is_int_like(b) or is_real_like(b))):
             raise EngineError(f'ordering comparison on {type(a).__name__}, {type(b).__name__} at line {line}')
         if not is_sym(a) and not is_sym(b):
@@ -639,3 +650,7 @@ class ExprMixin:
 
     def ev_Starred(self, e, st):
         raise EngineError('starred expression')
+
+
+def is_inf(v):
+    return isinstance(v, tuple) and len(v) == 2 and isinstance(v[0], str) and v[0] == '$inf'
